@@ -142,7 +142,7 @@ int main(void) {
 		if (nf < 1) continue;
 		vh_set_tag(tag);
 		const char *op = fld[0];
-		alarm(20);
+		vh_watchdog(2, 20); /* a case costs microseconds: 2 s of CPU time (20 s of wall clock) without an answer = the code under test does not terminate */
 		if (!strcmp(op, "lay") && nf == 1) {
 			sa_family_t f4 = AF_INET, f6 = AF_INET6;
 			printf("lay ss=%zu af4=", sizeof(struct sockaddr_storage));
@@ -155,10 +155,10 @@ int main(void) {
 			LAYF("flow6", struct sockaddr_in6, sin6_flowinfo); LAYF("addr6", struct sockaddr_in6, sin6_addr);
 			LAYF("scope6", struct sockaddr_in6, sin6_scope_id);
 			printf(" size6=%zu\n", sizeof(struct sockaddr_in6));
-			alarm(0);
+			vh_watchdog(0, 0);
 			continue;
 		}
-		if (nf < 2) { alarm(0); continue; }
+		if (nf < 2) { vh_watchdog(0, 0); continue; }
 		if (!strcmp(op, "ss") && nf >= 8) {
 			const char *sub = fld[1], *fam = fld[2];
 			size_t an, fn_, sn, xn = 0;
@@ -166,7 +166,7 @@ int main(void) {
 			unsigned port = (unsigned)strtoul(fld[4], NULL, 10), pad = (unsigned)strtoul(fld[7], NULL, 10);
 			uint8_t *x = NULL;
 			int rc = 0;
-			if (fn_ != 4 || sn != 4 || (nf < 9 && strcmp(sub, "si"))) { printf("ss badcase\n"); alarm(0); continue; }
+			if (fn_ != 4 || sn != 4 || (nf < 9 && strcmp(sub, "si"))) { printf("ss badcase\n"); vh_watchdog(0, 0); continue; }
 			struct sockaddr_storage *ss = mk_img(fam, a, an, port, fl, sc, pad);
 			struct sockaddr_storage *pre = (struct sockaddr_storage *)vh_buf(sizeof(*pre));
 			struct sockaddr_storage *src = NULL;
@@ -186,7 +186,7 @@ int main(void) {
 				ss = (struct sockaddr_storage *)vh_buf(sizeof(*ss));
 				fill_pat(ss, (unsigned)strtoul(fld[8], NULL, 10)); memcpy(pre, ss, sizeof(*pre));
 				sa_copy(src, ss);
-			} else { printf("ss badcase\n"); alarm(0); continue; }
+			} else { printf("ss badcase\n"); vh_watchdog(0, 0); continue; }
 			printf("ss rc=%d pre=", rc); vh_puthex((const uint8_t *)pre, sizeof(*pre));
 			printf(" post="); vh_puthex((const uint8_t *)ss, sizeof(*ss));
 			printf(" src=");
@@ -196,7 +196,7 @@ int main(void) {
 			if (src) vh_buf_free((uint8_t *)src);
 			if (x) vh_buf_free(x);
 			vh_buf_free(a); vh_buf_free(fl); vh_buf_free(sc);
-			alarm(0);
+			vh_watchdog(0, 0);
 			continue;
 		}
 		if ((!strcmp(op, "fa") || !strcmp(op, "fp")) && nf == 5) {
@@ -287,7 +287,7 @@ int main(void) {
 		} else {
 			printf("%s badcase\n", op);
 		}
-		alarm(0);
+		vh_watchdog(0, 0);
 	}
 	return 0;
 }
